@@ -406,20 +406,15 @@ where
     where
         M: IterableEntropyModel<'m, PRECISION, Symbol = Symbol, Probability = Probability> + ?Sized,
     {
-        let symbol_table = model.symbol_table();
-        let mut cdf = Vec::with_capacity(symbol_table.size_hint().0 + 1);
-        cdf.extend(
-            symbol_table.map(|(symbol, left_sided_cumulative, _)| (left_sided_cumulative, symbol)),
-        );
-        cdf.push((
-            wrapping_pow2(PRECISION),
-            cdf.last().expect("`symbol_table` is not empty").1.clone(),
-        ));
-
-        Self {
-            cdf,
-            phantom: PhantomData,
-        }
+        // `IterableEntropyModel` is a safe trait that downstream crates may implement, and
+        // `quantile_function` relies on a well-formed `cdf` for memory safety. We therefore
+        // can't just copy the `symbol_table` but have to validate it.
+        let (symbols, probabilities): (Vec<_>, Vec<_>) = model
+            .symbol_table()
+            .map(|(symbol, _, probability)| (symbol, probability.get()))
+            .unzip();
+        Self::from_symbols_and_nonzero_fixed_point_probabilities(symbols, probabilities, false)
+            .expect("`model` must be a valid entropy model")
     }
 }
 
